@@ -43,6 +43,9 @@ BASE = {
     "dup_a.f90": "module dupm\n  integer :: xa\nend module dupm\n",
     "dup_b.f90": "module dupm\n  integer :: xb\nend module dupm\n",
     "dup_c.f90": "program dupc\n  use dupm\n  xa = 1\n  xb = 2\nend program dupc\n",
+    # an include file whose suffix is not a source suffix: the scan of the workspace does not index it
+    "vars.inc": "integer :: from_vinc\n",
+    "hv.f90": "module hvm\n  include 'vars.inc'\ncontains\n  subroutine hvs()\n    from_vinc = 1\n  end subroutine hvs\nend module hvm\n",
     "w.f90": "subroutine uses_inc()\n  include 'inc.f90'\n  from_inc = 1\nend subroutine uses_inc\n",
 }
 
@@ -55,6 +58,10 @@ BASE_SM1_RENAMED = BASE["sm1.f90"].replace("parentm", "parentm2")
 # each history: list of (op, file, new text or None); ops: save (write to disk + didSave), change (didChange full text,
 # no disk write), open, close, delete (remove from disk + didClose), create (write + didOpen)
 HISTORIES = {
+    "include_file_with_other_suffix_closed": [("close", "vars.inc", None)],
+    "include_file_with_other_suffix_edited_and_closed": [("save", "vars.inc", "integer :: from_vinc, second_v\n"), ("query", None, None), ("close", "vars.inc", None)],
+    "source_file_closed": [("close", "t.f90", None), ("query", None, None), ("close", "u.f90", None)],
+    "source_file_closed_and_reopened": [("close", "t.f90", None), ("open", "t.f90", None)],
     "duplicate_module_first_file_saved": [("save", "dup_a.f90", BASE["dup_a.f90"] + "! c\n")],
     "duplicate_module_second_file_saved": [("save", "dup_b.f90", BASE["dup_b.f90"] + "! c\n")],
     "duplicate_module_both_saved": [("save", "dup_b.f90", BASE["dup_b.f90"] + "! c\n"), ("save", "dup_a.f90", BASE["dup_a.f90"] + "! c\n")],
@@ -187,6 +194,7 @@ def run_history(hname, steps):
 
         srv, rw = start()
         files = dict(BASE)
+        closed = set()
         for name in sorted(files):
             srv.handle({"jsonrpc": "2.0", "method": "textDocument/didOpen", "params": {"textDocument": {"uri": ws.uri(name)}}})
         for op, name, text in steps:
@@ -214,6 +222,13 @@ def run_history(hname, steps):
             elif op == "change":
                 srv.handle({"jsonrpc": "2.0", "method": "textDocument/didChange",
                             "params": {"textDocument": {"uri": uri}, "contentChanges": [{"text": text}]}})
+            elif op == "close":
+                # the editor closes the document; the file stays on disk (the fresh server does not open it either)
+                closed.add(name)
+                srv.handle({"jsonrpc": "2.0", "method": "textDocument/didClose", "params": {"textDocument": {"uri": uri}}})
+            elif op == "open":
+                closed.discard(name)
+                srv.handle({"jsonrpc": "2.0", "method": "textDocument/didOpen", "params": {"textDocument": {"uri": uri}}})
             elif op == "delete":
                 os.remove(ws.path(name))
                 files.pop(name, None)
@@ -225,7 +240,8 @@ def run_history(hname, steps):
         rw.out.clear()
         # every open document saved: one more save round so that every file has seen the final state of the others
         for name in sorted(files):
-            srv.handle({"jsonrpc": "2.0", "method": "textDocument/didSave", "params": {"textDocument": {"uri": ws.uri(name)}}})
+            if name not in closed:
+                srv.handle({"jsonrpc": "2.0", "method": "textDocument/didSave", "params": {"textDocument": {"uri": ws.uri(name)}}})
         rw.out.clear()
         old_answers = all_queries(srv, ws, files, parse_out, rw)
         old_diag = diagnostics_of(srv, ws, files, parse_out, rw)
@@ -233,7 +249,8 @@ def run_history(hname, steps):
                      "source_dirs": sorted(d.replace(ws.root, "<root>") for d in srv.source_dirs)}
         fresh, frw = start()
         for name in sorted(files):
-            fresh.handle({"jsonrpc": "2.0", "method": "textDocument/didOpen", "params": {"textDocument": {"uri": ws.uri(name)}}})
+            if name not in closed:
+                fresh.handle({"jsonrpc": "2.0", "method": "textDocument/didOpen", "params": {"textDocument": {"uri": ws.uri(name)}}})
         frw.out.clear()
         new_answers = all_queries(fresh, ws, files, parse_out, frw)
         new_diag = diagnostics_of(fresh, ws, files, parse_out, frw)
